@@ -645,3 +645,13 @@ def run(p: Program, rep: Report, tier: str) -> None:
     check_filename(p, rep)
     check_cookie_lines(p, rep)
     rep.require_instances("R5.2", 10)
+    # ---------------------------------------------------------------- R5.8 no second response after a failed one
+    from .stream_common import no_response_after_failed_response
+    for kind, fn_, node, cons, msg in no_response_after_failed_response(p):
+        if kind == "ok":
+            rep.ok("R5.8", msg)
+        elif kind == "undecided":
+            rep.undecide("R5.8", msg)
+        else:
+            rep.violation("R5.8", construct(fn_, text=cons), where(fn_, node), msg)
+    rep.require_instances("R5.8", 1)
